@@ -32,25 +32,6 @@ theorem unknown_list_bounds (b : Bytes) (m : Msg) (sup req : List Nat) (u : List
     simp only [List.mem_filter, decide_eq_true_eq] at ht
     exact ht.2.1
 
-/-- the 420 response: class error, the request's method and transaction id, ERROR-CODE 420,
-    UNKNOWN-ATTRIBUTES listing exactly `u`; it parses back -/
-theorem unknown_resp_shape (b : Bytes) (m : Msg) (u : List Nat) (hp : msgFromBytes b = .ok m)
-    (hu : u ≠ [] ∧ u.length < 16384 ∧ ∀ t ∈ u, t < 65536) :
-    ∃ m', msgFromBytes (unknownAttributesResp m u).build = .ok m' ∧
-      m'.cls = 3 ∧ m'.method = m.method ∧ m'.tid = m.tid ∧
-      m'.attribute .errorCode = .ok (.errorCode 420 (asciiBytes "Unknown Attributes")) ∧
-      m'.attribute .unknownAttributes = .ok (.unknownAttributes u) ∧
-      m'.attribute .software = .ok (.software (asciiBytes "stun-types")) := by
-  sorry
-
-/-- the 400 response -/
-theorem bad_resp_shape (b : Bytes) (m : Msg) (hp : msgFromBytes b = .ok m) :
-    ∃ m', msgFromBytes (badRequestResp m).build = .ok m' ∧
-      m'.cls = 3 ∧ m'.method = m.method ∧ m'.tid = m.tid ∧
-      m'.attribute .errorCode = .ok (.errorCode 400 (asciiBytes "Bad Request")) ∧
-      m'.hasAttribute 0x000A = false := by
-  sorry
-
 /-- building the responses never hits the `unwrap()` of a refused `add_attribute` (C01): every
     attribute of the response is really there -/
 theorem resp_attrs (m : Msg) (u : List Nat) :
